@@ -792,6 +792,11 @@ func (c *Canary) send(state *State, payload []byte, flags tcp.Flag) error {
 
 	}
 
+	if ae == nil {
+		// neither an ARP entry nor a route for the peer: nothing can be sent
+		return fmt.Errorf("no ARP entry or route for %s", dst)
+	}
+
 	ef := ethernet.Frame{
 		Source:      c.networkInterfaces[0].HardwareAddr,
 		Destination: ae.HardwareAddress,
